@@ -31,6 +31,20 @@ func Programs(seed int64, n int, tweak func(o *absprog.Opts, rng *rand.Rand)) []
 	return progs
 }
 
+// foreignUnion: struct fields typed by an exported union of the sub package (alone, in a slice, next to a local
+// union): they travel as Kind / Data objects like any union value, through the wrapper generated for that package.
+func foreignUnion(id int) *absprog.Prog {
+	return &absprog.Prog{ID: id, Decls: []absprog.Decl{
+		{K: "iface", Name: "Figure", Pkg: "sub", IMethods: []string{"isFigure"}},
+		{K: "struct", Name: "Disc", Pkg: "sub", Fields: []absprog.Field{{Name: "R", Type: absprog.Basic("int")}}, Methods: []absprog.Method{{Name: "isFigure"}}},
+		{K: "struct", Name: "Bar", Pkg: "sub", Fields: []absprog.Field{{Name: "W", Type: absprog.Basic("int")}, {Name: "Label", Type: absprog.Basic("string"), Tag: `json:"label"`}}, Methods: []absprog.Method{{Name: "isFigure"}}},
+		{K: "iface", Name: "Shape", IMethods: []string{"isShape"}},
+		{K: "struct", Name: "Circle", Fields: []absprog.Field{{Name: "R", Type: absprog.Basic("int")}}, Methods: []absprog.Method{{Name: "isShape"}}},
+		{K: "struct", Name: "Drawing", Fields: []absprog.Field{{Name: "Title", Type: absprog.Basic("string")}, {Name: "Main", Type: absprog.Ref("sub", "Figure")}}},
+		{K: "struct", Name: "Mixed", Fields: []absprog.Field{{Name: "Local", Type: absprog.Ref("", "Shape")}, {Name: "Far", Type: absprog.Ref("sub", "Figure"), Tag: `json:"far"`}, {Name: "N", Type: absprog.Basic("int")}}},
+	}}
+}
+
 type replayCase struct {
 	Prog absprog.Prog `json:"prog"`
 	Type string       `json:"type"`
@@ -58,6 +72,7 @@ func Run(c *core.Ctx, replay string) (*core.Result, error) {
 		seed = rc.Seed
 	} else {
 		progs = Programs(c.Seed, nProg, func(o *absprog.Opts, rng *rand.Rand) { o.TagOptions = true; o.Pointers = rng.Intn(2) == 0 })
+		progs = append(progs, foreignUnion(len(progs)+1))
 	}
 	s, err := wire.Prepare(c.Sub("wire"), progs, false)
 	if err != nil {
